@@ -2133,3 +2133,147 @@ func r09BuiltinCellSizesHalve(c *core.Ctx) {
 		c.Bad(R, "builtin-cell-sizes-halve/inventory", token.NoPos, fmt.Sprintf("%d embedded documents have the shape of a quadtree, 7 confirmed by hand", checked))
 	}
 }
+
+func init() {
+	reg("R01", r01IntersectionAnswerIsTheLibrarys)
+	reg("R46", r46ContainmentCountedOverAllVertices)
+}
+
+// r01IntersectionAnswerIsTheLibrarys: intgeom.SegmentIntersect answers what the planar primitive answers for its
+// two lines, on every path: each return carries the primitive's own "intersects" result, and the primitive is
+// given l1 and l2 in that order.  A shortcut exit in front of it answers "no" from a guess about the segments
+// (their direction, their bounding boxes) the callers do not promise.
+func r01IntersectionAnswerIsTheLibrarys(c *core.Ctx) {
+	const R = "R01"
+	f := c.Anchor(R, "intgeom.SegmentIntersect")
+	if f == nil || f.SSA == nil {
+		return
+	}
+	construct := "intersection-answer-is-the-primitive's/" + f.Name
+	fn := f.SSA
+	var prim *ssa.Call
+	n := 0
+	for _, b := range fn.Blocks {
+		for _, in := range b.Instrs {
+			if call, ok := in.(*ssa.Call); ok && strings.HasSuffix(core.StaticCalleeID(call), "planar.SegmentIntersect") {
+				prim = call
+				n++
+			}
+		}
+	}
+	if prim == nil || n != 1 {
+		c.Bad(R, construct, f.Decl.Pos(), fmt.Sprintf("expected one call of planar.SegmentIntersect, found %d", n))
+		return
+	}
+	okArgs := len(prim.Call.Args) == 2
+	for i := 0; okArgs && i < 2; i++ {
+		conv, ok := resolveValue(prim.Call.Args[i]).(*ssa.Call)
+		if !ok || conv.Call.StaticCallee() == nil || conv.Call.StaticCallee().Name() != "ToGeomLine" || len(conv.Call.Args) != 1 || resolveValue(conv.Call.Args[0]) != ssa.Value(fn.Params[i]) {
+			okArgs = false
+		}
+	}
+	ans := extractOf(prim, 1)
+	bad := ""
+	if !okArgs {
+		bad = "the primitive is not handed l1.ToGeomLine() and l2.ToGeomLine() in that order; "
+	}
+	for _, b := range fn.Blocks {
+		for _, in := range b.Instrs {
+			ret, ok := in.(*ssa.Return)
+			if !ok || len(ret.Results) != 2 {
+				continue
+			}
+			if ans == nil || !retMayBe(ret.Results[1], ans, map[ssa.Value]bool{}) || !core.Dominates(prim, ret) {
+				bad += fmt.Sprintf("%s answers without (or instead of) the primitive; ", c.P.Pos(ret.Pos()))
+			} else if ph, isPhi := resolveValue(ret.Results[1]).(*ssa.Phi); isPhi {
+				for _, e := range ph.Edges {
+					if resolveValue(e) != ans {
+						bad += fmt.Sprintf("%s can answer something else than the primitive; ", c.P.Pos(ret.Pos()))
+					}
+				}
+			}
+		}
+	}
+	c.Check(R, construct, f.Decl.Pos(), bad == "", "every return carries planar.SegmentIntersect(l1, l2)'s own answer", "SegmentIntersect does not simply pass on the primitive's answer: "+bad)
+}
+
+// r46ContainmentCountedOverAllVertices: which shells contain a hole is asked for the vertices of the hole one after
+// the other (until one shell leads alone, which unique-leader-decides covers): the point handed to ringContains is
+// the element of a loop over the whole hole, inside a loop over all holes, and the ring it is tested against is
+// shell 0 of the element of a loop over all polygons.  One vertex alone can lie on the shared boundary of two
+// shells.
+func r46ContainmentCountedOverAllVertices(c *core.Ctx) {
+	const R = "R46"
+	mf := c.Anchor(R, "snap.matchInnersToPolygons")
+	if mf == nil || mf.SSA == nil {
+		return
+	}
+	construct := "containment-asked-for-every-vertex/" + mf.Name
+	fn := mf.SSA
+	// the call, in matchInnersToPolygons or in a package helper it hands the hole to
+	var calls []effCall
+	find := func(g *ssa.Function, site *ssa.Call) {
+		for _, b := range g.Blocks {
+			for _, in := range b.Instrs {
+				if call, ok := in.(*ssa.Call); ok && call.Call.StaticCallee() != nil && call.Call.StaticCallee().Name() == "ringContains" {
+					s0 := site
+					if s0 == nil {
+						s0 = call
+					}
+					calls = append(calls, effCall{s0, call, call.Call.Args})
+				}
+			}
+		}
+	}
+	find(fn, nil)
+	if len(calls) == 0 {
+		for _, b := range fn.Blocks {
+			for _, in := range b.Instrs {
+				if call, ok := in.(*ssa.Call); ok {
+					if h := call.Call.StaticCallee(); h != nil && len(h.Blocks) > 0 && h.Pkg == fn.Pkg && h.Name() != "ringContains" {
+						find(h, call)
+					}
+				}
+			}
+		}
+	}
+	if len(calls) != 1 || len(calls[0].Args) != 2 {
+		c.Unknown(R, construct, mf.Decl.Pos(), fmt.Sprintf("expected one call of ringContains in matchInnersToPolygons (or a helper it calls), found %d", len(calls)))
+		return
+	}
+	var inners ssa.Value
+	for _, p := range fn.Params {
+		if p.Type().String() == "[][][2]float64" {
+			inners = p
+		}
+	}
+	// a value of the helper that is one of its parameters stands for the caller's argument
+	toCaller := func(v ssa.Value) ssa.Value {
+		v = resolveValue(v)
+		if calls[0].Inner != calls[0].Site {
+			h := calls[0].Inner.Parent()
+			for i, prm := range h.Params {
+				if v == ssa.Value(prm) && i < len(calls[0].Site.Call.Args) {
+					return resolveValue(calls[0].Site.Call.Args[i])
+				}
+			}
+		}
+		return v
+	}
+	why := ""
+	vtx := sliceElemLoad(resolveValue(calls[0].Args[1]))
+	switch {
+	case vtx == nil:
+		why = "the point tested is not an element of a ring"
+	case fullLoopOver(vtx.Index, vtx.X) == nil && fullLoopOver(vtx.Index, resolveValue(vtx.X)) == nil:
+		why = "the point tested is not the element of a loop over the whole hole (a fixed vertex is tested)"
+	default:
+		ring := sliceElemLoad(toCaller(vtx.X))
+		if ring == nil || inners == nil || resolveValue(ring.X) != inners {
+			why = "the hole is not an element of the list of inner rings"
+		} else if fullLoopOver(ring.Index, ring.X) == nil {
+			why = "the holes are not walked in a loop over all inner rings"
+		}
+	}
+	c.Check(R, construct, calls[0].Site.Pos(), why == "", "ringContains(shell, v) for v over all vertices of each hole", "hole matching does not look at every vertex of a hole: "+why)
+}
